@@ -962,3 +962,148 @@ TWINS += [
         (F, "    def fail(self, message: str) -> te.NoReturn:", "    def _take(self, put: t.Callable[[bytes], t.Any], ev: Data) -> None:\n        put(ev.data)\n\n    def fail(self, message: str) -> te.NoReturn:"),
     ]},
 ]
+
+# ---------------------------------------------------------------------------------------------------------------------
+# round 3: the delimiter search hoisted in front of the branch (its result is None when the boundary text is absent), one
+# hold-back computation reached in both states of the buffer
+
+_HOISTED = '''        boundary = b"--" + self.boundary
+        seen = self.buffer.find(boundary) >= 0
+        found = self.boundary_re.search(data) if seen else None
+        if found is not None:
+            self.state = State.EPILOGUE if found.group(1).startswith(b"--") else State.PART
+            return bytes(data[data_start : found.start()]), found.end(), False
+        hold = self.last_newline(data[data_start:]) + data_start
+        if %s:
+            hold = len(data)
+        return bytes(data[data_start:hold]), hold, True
+
+
+'''
+_NONE_DEFAULT = '''        boundary = b"--" + self.boundary
+        match = None
+        if self.buffer.find(boundary) != -1:
+            match = self.boundary_re.search(data)
+
+        if match is None:
+            data_end = del_index = %s
+            if boundary not in self.buffer and (len(data) - data_end) > len(b"\\n" + boundary):
+                data_end = del_index = len(data)
+            more_data = True
+        else:
+            if match.group(1).startswith(b"--"):
+                self.state = State.EPILOGUE
+            else:
+                self.state = State.PART
+            data_end, del_index = match.span()
+            more_data = False
+
+        return bytes(data[data_start:data_end]), del_index, more_data
+
+
+'''
+_WALRUS_HOIST = '''        boundary = b"--" + self.boundary
+        absent = boundary not in self.buffer
+
+        if (match := None if absent else self.boundary_re.search(data)) is not None:
+            self.state = State.EPILOGUE if match.group(1).startswith(b"--") else State.PART
+            data_end = match.start()
+            del_index = match.end()
+        else:
+            data_end = del_index = self.last_newline(data[data_start:]) + data_start
+            if absent and %s:
+                data_end = del_index = len(data)
+
+        return bytes(data[data_start:data_end]), del_index, match is None
+
+
+'''
+
+TWINS += [
+    {"name": 'search-hoisted-conditional-expression-early-return-one-hold-back', "edits": [
+        (M, _SPLIT_TAIL, _HOISTED % "not seen and len(data) - hold > len(boundary) + 1"),
+    ]},
+    {"name": 'search-result-defaults-to-none-and-is-overwritten-when-the-boundary-is-there', "edits": [
+        (M, _SPLIT_TAIL, _NONE_DEFAULT % "self.last_newline(data[data_start:]) + data_start"),
+    ]},
+    {"name": 'search-hoisted-into-a-walrus-test-on-an-absent-flag', "edits": [
+        (M, _SPLIT_TAIL, _WALRUS_HOIST % "(len(data) - data_end) > len(boundary) + 1"),
+    ]},
+]
+
+MUTANTS += [
+    {"name": 'hoisted-search-early-release-also-when-the-boundary-text-is-there', "expect": 'R1.4', "edits": [
+        (M, _SPLIT_TAIL, _HOISTED % "len(data) - hold > len(boundary) + 1"),
+    ]},
+    {"name": 'hoisted-search-threshold-without-line-break', "expect": 'R1.4', "edits": [
+        (M, _SPLIT_TAIL, _HOISTED % "not seen and len(data) - hold > len(boundary)"),
+    ]},
+    {"name": 'none-default-shape-hold-back-offset-forgotten', "expect": 'R1.7', "edits": [
+        (M, _SPLIT_TAIL, _NONE_DEFAULT % "self.last_newline(data[data_start:])"),
+    ]},
+    {"name": 'walrus-hoist-threshold-inclusive', "expect": 'R1.4', "edits": [
+        (M, _SPLIT_TAIL, _WALRUS_HOIST % "(len(data) - data_end) >= len(boundary) + 1"),
+    ]},
+]
+
+_HOIST_HEAD = '        boundary = b"--" + self.boundary\n'
+_COUNT_SHAPE = _HOIST_HEAD + '''        seen = self.buffer.count(boundary) %s
+        match = self.boundary_re.search(data) if seen else None
+        if match is None:
+            data_end = del_index = self.last_newline(data[data_start:]) + data_start
+            if not seen and (len(data) - data_end) > %s:
+                data_end = del_index = len(data)
+        else:
+            self.state = State.EPILOGUE if match.group(1).startswith(b"--") else State.PART
+            data_end = match.start()
+            del_index = match.end()
+        return bytes(data[data_start:data_end]), del_index, match is None
+
+
+'''
+_RESULT_LOCAL_SHAPE = _HOIST_HEAD + '''        seen = boundary in self.buffer
+        match = self.boundary_re.search(data) if seen else None
+        if not match:
+            data_end = del_index = %s
+            if not seen and (len(data) - data_end) > len(boundary) + 1:
+                data_end = del_index = len(data)
+        else:
+            self.state = State.EPILOGUE if match.group(1).startswith(b"--") else State.PART
+            data_end = match.start()
+            del_index = match.end()
+        result = (bytes(data[data_start:data_end]), del_index, not match)
+        return result
+
+
+'''
+_HELPER_SEARCH_SHAPE = _HOIST_HEAD + '''        match = self._find_delimiter(data, boundary)
+        if match is None:
+            data_end = del_index = self.last_newline(data[data_start:]) + data_start
+            if %s(len(data) - data_end) %s len(boundary) + 1:
+                data_end = del_index = len(data)
+        else:
+            self.state = State.EPILOGUE if match.group(1).startswith(b"--") else State.PART
+            data_end = match.start()
+            del_index = match.end()
+        return bytes(data[data_start:data_end]), del_index, match is None
+
+    def _find_delimiter(self, data: bytes, boundary: bytes) -> t.Match[bytes] | None:
+        return self.boundary_re.search(data) if boundary in self.buffer else None
+
+
+'''
+
+TWINS += [
+    {"name": 'presence-by-count-held-in-a-flag-search-hoisted', "edits": [(M, _SPLIT_TAIL, _COUNT_SHAPE % ("> 0", 'len(boundary) + len(b"\\n")'))]},
+    {"name": 'presence-by-count-as-a-truth-value', "edits": [(M, _SPLIT_TAIL, _COUNT_SHAPE % ("", "1 + len(boundary)"))]},
+    {"name": 'match-tested-by-truth-value-result-tuple-in-a-local', "edits": [(M, _SPLIT_TAIL, _RESULT_LOCAL_SHAPE % "self.last_newline(data[data_start:]) + data_start")]},
+    {"name": 'guarded-search-in-a-one-expression-helper', "edits": [(M, _SPLIT_TAIL, _HELPER_SEARCH_SHAPE % ("boundary not in self.buffer and ", ">"))]},
+]
+
+MUTANTS += [
+    {"name": 'count-shape-threshold-without-line-break', "expect": 'R1.4', "edits": [(M, _SPLIT_TAIL, _COUNT_SHAPE % ("> 0", "len(boundary)"))]},
+    {"name": 'count-shape-presence-test-inverted', "expect": 'R1.4', "edits": [(M, _SPLIT_TAIL, _COUNT_SHAPE % ("== 0", "len(boundary) + 1"))]},
+    {"name": 'result-local-shape-hold-back-offset-forgotten', "expect": 'R1.7', "edits": [(M, _SPLIT_TAIL, _RESULT_LOCAL_SHAPE % "self.last_newline(data[data_start:])")]},
+    {"name": 'helper-search-shape-threshold-inclusive', "expect": 'R1.4', "edits": [(M, _SPLIT_TAIL, _HELPER_SEARCH_SHAPE % ("boundary not in self.buffer and ", ">="))]},
+    {"name": 'helper-search-shape-early-release-also-when-the-boundary-text-is-there', "expect": 'R1.4', "edits": [(M, _SPLIT_TAIL, _HELPER_SEARCH_SHAPE % ("", ">"))]},
+]
